@@ -1,1 +1,105 @@
-// verification harness (compiled into ntp-proto/src/system.rs under cfg(all(test, pendulum_project_ntpd_rs_verif)))
+// Harness for spec/SysSnapshot.tla (C33, advertisement clause): for every list of used sources TLC enumerates, the
+// real NtpManager is given the sources' snapshots (directly into its snapshot table) and asked what it advertises
+// (update_used_sources / observe); stratum and reference id are compared with the specification's.
+// Compiled into ntp-proto/src/system.rs under cfg(all(test, pendulum_project_ntpd_rs_verif)).
+#![allow(clippy::all, dead_code)]
+
+use super::*;
+use crate::source::Reach;
+use crate::time_types::PollInterval;
+use serde_json::{Value, json};
+use std::net::Ipv4Addr;
+
+#[path = "/verif/harness/common/util.rs"]
+mod util;
+
+fn snap(stratum: u8, id: u32) -> NtpSourceSnapshot {
+    let mut reach = Reach::never();
+    reach.received_packet();
+    NtpSourceSnapshot {
+        source_addr: SocketAddr::new(IpAddr::V4(Ipv4Addr::new(192, 0, 2, 1)), 123),
+        source_id: ReferenceId::from_int(id),
+        poll_interval: PollInterval::from_byte(4),
+        reach,
+        stratum,
+        reference_id: ReferenceId::from_int(0x1234_5678),
+        protocol_version: ProtocolVersion::V4,
+        bloom_filter: None,
+    }
+}
+
+fn ref_name(r: ReferenceId) -> String {
+    if r == ReferenceId::NONE {
+        "none".into()
+    } else if r == ReferenceId::PPS {
+        "pps".into()
+    } else if r == ReferenceId::SOCK {
+        "sock".into()
+    } else if r == ReferenceId::CSPTP {
+        "csptp".into()
+    } else if r == ReferenceId::from_int(0x7072_6576) {
+        "prev".into()
+    } else {
+        let v = u32::from_be_bytes(r.to_bytes());
+        if v & 0xFFFF_FF00 == 0x6E74_7000 { format!("ntp{}", v & 0xFF) } else { format!("other:{v:08x}") }
+    }
+}
+
+#[test]
+fn verif_system() {
+    let job = util::job();
+    let cases = util::read_ndjson(job["input"].as_str().unwrap());
+    let mut out = util::NdjsonOut::create(job["output"].as_str().unwrap());
+    for (n, c) in cases.iter().enumerate() {
+        let r = util::catch(|| {
+            let sync = SynchronizationConfig { local_stratum: c["local"].as_u64().unwrap() as u8, ..Default::default() };
+            let mgr = NtpManager::new(sync, Arc::from(vec![IpAddr::V4(Ipv4Addr::new(10, 0, 0, 1))]));
+            // a previous advertisement: one reported NTP source of stratum 7
+            mgr.source_snapshots.lock().unwrap().insert(ClockId(100), snap(7, 0x7072_6576));
+            let prev = mgr.update_used_sources([(ClockId(100), SourceType::Ntp)].into_iter());
+            let mut used = vec![];
+            for (i, s) in c["list"].as_array().unwrap().iter().enumerate() {
+                let id = ClockId(i as u64 + 1);
+                let ty = match s["ty"].as_str().unwrap() {
+                    "ntp" => SourceType::Ntp,
+                    "pps" => SourceType::Pps,
+                    "sock" => SourceType::Sock,
+                    _ => SourceType::Csptp,
+                };
+                if ty == SourceType::Ntp && s["snap"].as_bool().unwrap() {
+                    mgr.source_snapshots.lock().unwrap().insert(id, snap(s["stratum"].as_u64().unwrap() as u8, 0x6E74_7000 + i as u32 + 1));
+                }
+                used.push((id, ty));
+            }
+            let got = mgr.update_used_sources(used.into_iter());
+            let seen = mgr.observe();
+            json!({"prev": {"stratum": prev.stratum, "ref": ref_name(prev.reference_id)},
+                   "stratum": got.stratum, "ref": ref_name(got.reference_id),
+                   "observe_same": seen.stratum == got.stratum && seen.reference_id == got.reference_id})
+        });
+        let mut fields: Vec<String> = vec![];
+        let obs = match r {
+            Err(p) => {
+                fields.push("panic".into());
+                json!({"panic": p})
+            }
+            Ok(o) => {
+                if o["prev"] != json!({"stratum": 8, "ref": "prev"}) {
+                    fields.push("out.prev".into());
+                }
+                if o["stratum"] != c["expect"]["stratum"] {
+                    fields.push("out.stratum".into());
+                }
+                if o["ref"] != c["expect"]["ref"] {
+                    fields.push("out.ref".into());
+                }
+                if o["observe_same"] != json!(true) {
+                    fields.push("out.observe".into());
+                }
+                o
+            }
+        };
+        out.put(&json!({"id": n, "fields": fields, "observed": obs}));
+    }
+    out.finish();
+}
